@@ -11,6 +11,7 @@ import itertools
 from .. import core, harness, vloop
 
 PROP = 'C16'
+TECHNIQUE = ('runtime monitoring: reference left-to-right pipeline model and truth tables compared with the real filters, inside Event.send and called directly')
 LEVEL = 'exploration'
 RULE = ("cases: (a) pipeline = up to 3 scripted filters (pass/reject variants, new-dict edit, "
         "in-place edit) + input data, sent with the real Event.send() to a probe block; every "
